@@ -150,8 +150,10 @@ def main():
         skipped = 0
         for ei, (fname, members) in enumerate(entries):
             s = specs[members[0]]
-            if tier == "quick" and s.name.startswith("core-") and (ei + seed) % 2:
-                skipped += 1          # quick: every second core page (rotating with the seed); thorough: all
+            if tier == "quick" and s.name.startswith("core-") and (ei // 2 + ei % 2 + seed) % 2:
+                # quick: every second core page (rotating with the seed); thorough: all. The core set alternates one-line /
+                # multi-line pages, so a plain (ei + seed) % 2 kept ONLY the one-line ones for an even seed: pair-wise now
+                skipped += 1
                 continue
             conds.append(xh.Cond(path, fname, timeout=T * 2 if s.name.startswith("layout-") else T, env=env,
                                  meta={"variant": s.name if len(members) == 1 else s.name.rsplit("-", 1)[0] + "-*",
